@@ -68,7 +68,7 @@ def build_system(spec, listing=None, name='sys', root_dir=None, vectorized=True,
     for v in spec['exo']:
         vars_[v] = Variable(v, domain=(0.0, 1.0))
     for c in spec['comps']:
-        vars_[c['out']] = Variable(c['out'], domain=(-1.0, 3.0))
+        vars_[c['out']] = Variable(c['out'], domain=tuple(spec.get('coupling_domain', (-1.0, 3.0))))
     comps = []
     for c in spec['comps']:
         rec = cc.Recorder(comp_fn(c), c['ins'], [c['out']], c['na'], vectorized, cost_of(c['cost']))
